@@ -17,6 +17,7 @@ let run_all (p : M.program) (o : M.output) : string =
       "j07:" ^ string_of_int (nat_to_int (M.judged_C07 p));
       "C12:" ^ b2s (M.chk_C12 o);
       "C15:" ^ b2s (M.chk_C15 p o);
+      "C18:" ^ b2s (M.chk_C18 p o);
       "C10u:" ^ b2s (M.chk_C10_unique o);
       "C10r:" ^ (if accepted then b2s (M.chk_C10_resolve o) else "-");
       "C11:" ^ (if accepted then b2s (M.chk_C11 p o) else "-");
